@@ -526,6 +526,18 @@ class Sym:
             return ("attr", v, e.attr)
         if isinstance(e, ast.Subscript):
             v, i = rec(e.value), rec(e.slice)
+
+            def _as_slice(t):
+                # x[slice(a, b)] is x[a:b] (one slice object used for several subscripts), also inside an index tuple
+                if is_call_of(t, ("glob", "slice")) and 1 <= len(t[2]) <= 3 and not t[3] and "slice" not in self.locals:
+                    none = ("const", "None")
+                    pos_ = t[2]
+                    lo, hi, stp = (none, pos_[0], none) if len(pos_) == 1 else (pos_[0], pos_[1], pos_[2] if len(pos_) == 3 else none)
+                    return ("slice",) + tuple(None if x == none else x for x in (lo, hi, stp))
+                return t
+            i = _as_slice(i)
+            if i[:1] == ("tuple",):
+                i = ("tuple", tuple(_as_slice(x) for x in i[1]))
             if v[:1] == ("tuple",) and i[:1] == ("const",) and i[1].lstrip("-").isdigit() and isinstance(getattr(e, "ctx", None), ast.Load) \
                     and -len(v[1]) <= int(i[1]) < len(v[1]) and not any(x[:1] == ("uop",) for x in v[1]):
                 return v[1][int(i[1])]      # (a, b)[1] is b
@@ -900,7 +912,9 @@ class Sym:
                 if (isinstance(test.op, ast.And) and pol) or (isinstance(test.op, ast.Or) and not pol):
                     for v in test.values:
                         says(v, pol)
-            elif isinstance(test, ast.Compare) and len(test.ops) == 1 and isinstance(test.left, ast.Name) and test.left.id == name:
+            elif isinstance(test, ast.Compare) and len(test.ops) == 1 and (
+                    (isinstance(test.left, ast.Name) and test.left.id == name)
+                    or (isinstance(test.left, ast.NamedExpr) and test.left.target.id == name)):        # (x := f()) is not S
                 c = test.comparators[0]
                 if (isinstance(test.ops[0], ast.IsNot) and pol) or (isinstance(test.ops[0], ast.Is) and not pol):
                     if isinstance(c, ast.Constant) and c.value is None:
@@ -911,7 +925,8 @@ class Sym:
         for g in self.cfg.guards(at):
             if g.ast is None or isinstance(g.ast, (ast.For, ast.AsyncFor)) or g.from_assert:
                 continue
-            if {(d.nid, d.kind) for d in self.rd.reaching(g.of, name)} == here:
+            walrus_here = any(isinstance(n_, ast.NamedExpr) and n_.target.id == name for n_ in ast.walk(g.ast))
+            if {(d.nid, d.kind) for d in self.rd.reaching(g.of, name)} == here or (walrus_here and {n_ for n_, _ in here} == {g.of}):
                 says(g.ast, g.kind == "T")
         return out
 
